@@ -1,6 +1,7 @@
 //! Conformance harness: drives the real engine (built from /repo's working tree with the
 //! `verif` hooks) and records NDJSON traces that the TLA+ trace specifications check.
 
+mod ack;
 mod drivers;
 mod tree;
 mod world;
@@ -123,6 +124,7 @@ fn main() {
         "replay" => drivers::replay(&args),
         "natural" => drivers::natural(&args),
         "explore" => drivers::explore(&args),
+        "ack" => ack::run(&args),
         "tree" => drivers::trees(&args),
         _ => {
             eprintln!("usage: harness <random|replay|tree> --models F --out F [--seed N] ...");
